@@ -63,3 +63,79 @@ Proof.
   split; [exact Hf|]. intros Hd Hl. rewrite (Hb Hd Hl), Hf. f_equal.
   rewrite <- (phy_unmarshal_mic _ _ Hu). unfold set_fcnt. destruct (pl p); reflexivity.
 Qed.
+
+(* ---- the same in terms of the received bytes ---- *)
+Lemma mac_marshal_fcnt_congr h port f fc1 fc2 :
+  fc1 mod 65536 = fc2 mod 65536 ->
+  mac_marshal (mkMAC (mkFHDR (devaddr h) (fc h) fc1 (fopts h)) port f)
+  = mac_marshal (mkMAC (mkFHDR (devaddr h) (fc h) fc2 (fopts h)) port f).
+Proof.
+  intros H. unfold mac_marshal, fhdr_marshal. cbn [hdr devaddr fc fcnt fopts fport frm].
+  cbn [le_bytes]. replace (fc1 mod 256) with (fc2 mod 256) by lia.
+  replace ((fc1 / 256) mod 256) with ((fc2 / 256) mod 256) by lia. reflexivity.
+Qed.
+
+Section TamperBytes.
+  (* C08 (Frame/*Proofs.v, the lead): a decoded frame re-encodes to the bytes it was decoded from,
+     for byte strings that are [canonical] (RFU bits of the MHDR zero, ...). *)
+  Variable canonical : list N -> Prop.
+  Hypothesis reencode : forall bs p, canonical bs -> phy_unmarshal bs = Ok p -> phy_marshal p = Ok bs.
+
+  Lemma phy_unmarshal_mic_length bs p : phy_unmarshal bs = Ok p -> length (mic p) = 4%nat.
+  Proof.
+    intros H. rewrite (phy_unmarshal_mic _ _ H). rewrite skipn_length.
+    unfold phy_unmarshal in H. destruct (length bs <? 5)%nat eqn:E; [discriminate|]. apply Nat.ltb_ge in E. lia.
+  Qed.
+
+  (* for canonical bytes and a receiver counter that extends the 16 bits on the wire, the
+     authenticated message is exactly the received bytes without the MIC *)
+  Theorem tamper_bytes ver up k prm full bs b :
+    canonical bs -> rx_validate ver up k prm full bs = Ok b ->
+    exists p m,
+      phy_unmarshal bs = Ok p /\ pl p = PLMac m /\
+      (full mod 65536 = fcnt (hdr m) mod 65536 ->
+       length (devaddr (hdr m)) = 4%nat -> (length bs - 4 < 256)%nat ->
+       b = bytes_eqb (skipn (length bs - 4) bs)
+                     (spec_data_mic ver up k prm (ack (fc (hdr m))) (devaddr (hdr m)) full
+                                    (firstn (length bs - 4) bs))).
+  Proof.
+    intros Hcan H. destruct (tamper _ _ _ _ _ _ _ H) as (p & m' & msg & Hu & Hp' & Hm' & Hf & Hb).
+    pose proof (reencode bs p Hcan Hu) as Hre.
+    unfold set_fcnt in Hp'. destruct (pl p) as [| | | |m| |] eqn:Hp; cbn [pl] in Hp'; try (rewrite Hp in Hp'; discriminate).
+    injection Hp' as <-. exists p, m. split; [exact Hu|]. split; [exact Hp|].
+    intros Hfull Hd Hl.
+    assert (Emt : mtype (set_fcnt full p) = mtype p /\ major (set_fcnt full p) = major p)
+      by (unfold set_fcnt; rewrite Hp; split; reflexivity).
+    destruct Emt as [E1 E2].
+    unfold mic_bytes in Hm'. rewrite E1, E2 in Hm'.
+    rewrite (mac_marshal_fcnt_congr (hdr m) (fport m) (frm m) full (fcnt (hdr m)) Hfull) in Hm'.
+    assert (Em : mkMAC (mkFHDR (devaddr (hdr m)) (fc (hdr m)) (fcnt (hdr m)) (fopts (hdr m))) (fport m) (frm m) = m)
+      by (destruct m as [[? ? ? ?] ? ?]; reflexivity).
+    rewrite Em in Hm'.
+    unfold phy_marshal in Hre. rewrite Hp in Hre. cbn [payload_marshal] in Hre.
+    destruct (mac_marshal m) as [bm| | |]; cbn [bind] in *; try discriminate.
+    injection Hm' as <-. injection Hre as Hbs.
+    pose proof (phy_unmarshal_mic_length _ _ Hu) as Hm4.
+    assert (Hmsg : firstn (length bs - 4) bs = mhdr_marshal (mtype p) (major p) :: bm).
+    { rewrite <- Hbs. cbn [app]. rewrite app_comm_cons.
+      replace (length ((mhdr_marshal (mtype p) (major p) :: bm) ++ mic p) - 4)%nat
+        with (length (mhdr_marshal (mtype p) (major p) :: bm)) by (rewrite app_length; lia).
+      apply take_app_length. }
+    rewrite Hmsg. cbn [hdr devaddr fc ack] in Hb. apply Hb; [exact Hd|].
+    rewrite <- Hmsg, firstn_length. lia.
+  Qed.
+End TamperBytes.
+
+(* without the canonicity premise the statement fails: a flipped RFU bit of the MHDR (known finding
+   C05-2).  The 1.0 uplink 40 04030201 00 0500 01 dcd167 | 7773c10e sent under key 01..10 is accepted
+   when it arrives as 44...; the specification MIC of the received bytes is a different one. *)
+Definition c05_2_keys : keys :=
+  mkKeys (map N.of_nat (seq 1 16)) (map N.of_nat (seq 17 16)) (map N.of_nat (seq 33 16)) (map N.of_nat (seq 49 16)).
+Definition c05_2_bytes : list N := [0x44; 4; 3; 2; 1; 0; 5; 0; 1; 0xdc; 0xd1; 0x67; 0x77; 0x73; 0xc1; 0x0e].
+
+Theorem tamper_noncanonical_refuted :
+  rx_validate LoRaWAN1_0 true c05_2_keys (mkParams 0 0 0) 5 c05_2_bytes = Ok true /\
+  bytes_eqb (skipn 12 c05_2_bytes)
+            (spec_data_mic LoRaWAN1_0 true c05_2_keys (mkParams 0 0 0) false [1; 2; 3; 4] 5 (firstn 12 c05_2_bytes))
+  = false.
+Proof. split; vm_compute; reflexivity. Qed.
